@@ -1085,7 +1085,7 @@ package router
 //@   loop 2:
 //@     modifies nothing
 //@     invariant closersOK(r)
-//@     invariant [count] nF == rangeindex + 1
+//@     invariant [C18:count] nF == rangeindex + 1
 
 //@ func replyMatchesQuestion(resp *dnsmsg.Msg, q *dnsmsg.Question) (ok bool)
 //@   props C03 C01
@@ -1473,7 +1473,7 @@ package router
 //@   loop 1:
 //@     modifies *
 //@     invariant s != nil && routerReady(s.r) && s.logger != nil && c != nil && nAns == nQ && nQConv >= 0
-//@     invariant [reader] nBR == 1 && gBR != nil && nRelBR == 0
+//@     invariant [C13:reader] nBR == 1 && gBR != nil && nRelBR == 0
 
 // the per-connection goroutine: handles exactly the connection that was admitted
 //@ closure tcpServer.run$1
